@@ -1,4 +1,5 @@
-(* Props/C05.v — property C05: scope never escalates across minting, refresh and chained refresh; the scope
+(* Props/C05.v — property C05: scope never escalates across minting (at the token endpoint and, for implicit / hybrid
+   response types, at the authorization endpoint itself), refresh and chained refresh; the scope
    stated in the token response, carried by the token and reported by introspection is the same set.
    Statements only; proofs in Proofs/C05*_proofs.v.  Model/Session.v is tied to the real provider by
    harness/drv_C05.py on every run.  (The scope decisions of token exchange and client credentials are modelled in Model/ScopeFlows.v; their session
@@ -33,6 +34,81 @@ Theorem C05_cookie_authorization_bounded : forall c pre prev u cl sc rd fresh s1
   In x sc /\ In x (c_allowed c cl).
 Proof. exact cookie_authorization_bounded. Qed.
 Print Assumptions C05_cookie_authorization_bounded.
+
+(* TOKENS MINTED BY THE AUTHORIZATION ENDPOINT ITSELF (the operations of `run` include AuthorizeRT: an authorization
+   request whose response type contains `token` and / or `id_token`, with or without `code` - implicit and hybrid flows;
+   so C05_no_escalation above already ranges over these histories and over the front-channel tokens).  Explicitly:
+   (views) the scope the authorization response states is the requested scope filtered by the client's allowed scopes,
+   and the code, the access token and the ID Token it carries are tokens of the new grant, based on nothing, with exactly
+   that scope; *)
+Theorem C05_front_channel_views : forall c s u cl sc wc wt wi s1 code acc idt scope,
+  do_authorize_rt c s u cl sc wc wt wi = (s1, OAuthzRT code acc idt scope) ->
+  scope = filter_scopes c cl sc /\
+  forall k cls, (code = Some k /\ cls = Code) \/ (acc = Some k /\ cls = Access) \/ (idt = Some k /\ cls = IdTok) ->
+    exists t, tget k s1 = Some t /\ t_cls t = cls /\ t_based t = None /\ t_scope t = scope /\ t_grant t = length (grants s).
+Proof. exact front_channel_views. Qed.
+Print Assumptions C05_front_channel_views.
+(* (bound) after any history, such an authorization, and any further history, every token ever found in the grant it
+   created - front-channel access token and ID Token, the code, what the code is redeemed for, every refresh down the
+   chain - carries only scope values THIS request asked for and ITS client is allowed. *)
+Theorem C05_front_channel_bounded : forall c pre u cl sc wc wt wi s1 x0 post k t x,
+  step c (fst (run c init pre)) (AuthorizeRT u cl sc wc wt wi) = (s1, x0) ->
+  tget k (fst (run c s1 post)) = Some t -> t_grant t = length (grants (fst (run c init pre))) -> In x (t_scope t) ->
+  In x sc /\ In x (c_allowed c cl).
+Proof. exact front_channel_bounded. Qed.
+Print Assumptions C05_front_channel_bounded.
+
+(* THE RFC 8707 `resource` PARAMETER AT THE AUTHORIZATION ENDPOINT (decision function ScopeFlows.authz_decide: requested
+   scope, the client's allowed scopes, what a configured resource-indicator policy permits, the scope lists registered
+   for the named resources -> the scope of the grant, of every artefact minted, and the response's statement; tied to the
+   real OIDC and OAuth2 authorization endpoints by drv_C05 for every response type).  Naming a resource never ADDS a
+   scope to anything that is minted: *)
+Theorem C05_authz_artefacts_within_request : forall requested allowed permitted rscopes x,
+  let r := ScopeFlows.authz_decide requested allowed permitted rscopes in
+  In x (ScopeFlows.a_grant r) \/ In x (ScopeFlows.a_code r) \/ In x (ScopeFlows.a_access r) \/ In x (ScopeFlows.a_idtoken r) ->
+  In x requested /\ In x allowed /\ (forall p, permitted = Some p -> In x p).
+Proof. exact ScopeFlows_proofs.authz_artefacts_within_request. Qed.
+Print Assumptions C05_authz_artefacts_within_request.
+Theorem C05_resource_scopes_never_reach_tokens : forall requested allowed permitted rscopes x,
+  let r := ScopeFlows.authz_decide requested allowed permitted rscopes in
+  In x rscopes -> ~ In x requested ->
+  ~ In x (ScopeFlows.a_grant r) /\ ~ In x (ScopeFlows.a_code r) /\ ~ In x (ScopeFlows.a_access r) /\ ~ In x (ScopeFlows.a_idtoken r).
+Proof. exact ScopeFlows_proofs.authz_resource_scopes_never_reach_tokens. Qed.
+Print Assumptions C05_resource_scopes_never_reach_tokens.
+(* the response's scope statement: without a resource parameter it is the minted tokens' scope (as a set) ... *)
+Theorem C05_authz_response_is_token_scope_without_resource : forall requested allowed permitted x,
+  let r := ScopeFlows.authz_decide requested allowed permitted [] in
+  In x (ScopeFlows.a_response r) <-> In x (ScopeFlows.a_access r).
+Proof. exact ScopeFlows_proofs.authz_response_is_token_scope_without_resource. Qed.
+Print Assumptions C05_authz_response_is_token_scope_without_resource.
+(* ... with one it stays within the client's allowed scopes but may list what a named resource's registration lists *)
+Theorem C05_authz_response_within : forall requested allowed permitted rscopes x,
+  In x (ScopeFlows.a_response (ScopeFlows.authz_decide requested allowed permitted rscopes)) ->
+  In x allowed /\ (In x requested \/ In x rscopes).
+Proof. exact ScopeFlows_proofs.authz_response_within. Qed.
+Print Assumptions C05_authz_response_within.
+(* RECORDED FINDINGS (known_findings.txt: authz-response-states-resource-scope, token-response-scope-under-resource-policy):
+   under a resource parameter the statement is NOT the token's scope.  Witnesses: the request asks for profile and names a
+   resource that lists email -> the response states [profile; email], every artefact holds [profile]; at an OAuth2 token
+   endpoint with a resource policy the response states the TOKEN request's scope parameter cut down to what the resources
+   permit (nothing when there is none, [email] for scope=[email]) while the token holds the grant's [profile]. *)
+Theorem C05_refuted_authz_response_states_resource_scope :
+  let r := ScopeFlows.authz_decide ScopeFlows_proofs.ex_req ScopeFlows_proofs.ex_allowed None ScopeFlows_proofs.ex_rscopes in
+  ScopeFlows.a_response r = [PS "profile"; PS "email"] /\ ScopeFlows.a_access r = [PS "profile"] /\
+  ScopeFlows.a_code r = [PS "profile"] /\ ScopeFlows.set_eqb (ScopeFlows.a_response r) (ScopeFlows.a_access r) = false.
+Proof. exact ScopeFlows_proofs.authz_response_states_resource_scope_refuted. Qed.
+Print Assumptions C05_refuted_authz_response_states_resource_scope.
+Theorem C05_refuted_token_response_scope_under_resource_policy :
+  ScopeFlows.token_ri_statement [] ScopeFlows_proofs.ex_allowed = [] /\
+  ScopeFlows.token_ri_statement [PS "email"] ScopeFlows_proofs.ex_allowed = [PS "email"] /\
+  ScopeFlows.token_ri_token [PS "profile"] = [PS "profile"] /\
+  ScopeFlows.set_eqb (ScopeFlows.token_ri_statement [PS "email"] ScopeFlows_proofs.ex_allowed) (ScopeFlows.token_ri_token [PS "profile"]) = false.
+Proof. exact ScopeFlows_proofs.token_response_scope_under_resource_policy_refuted. Qed.
+Print Assumptions C05_refuted_token_response_scope_under_resource_policy.
+Theorem C05_token_ri_statement_within : forall treq permitted x,
+  In x (ScopeFlows.token_ri_statement treq permitted) -> In x treq /\ In x permitted.
+Proof. exact ScopeFlows_proofs.token_ri_statement_within. Qed.
+Print Assumptions C05_token_ri_statement_within.
 
 (* The invariant behind it, preserved by every operation. *)
 Theorem C05_invariant_step : forall c s o, inv c s -> inv c (fst (step c s o)).
@@ -130,6 +206,22 @@ Example C05_cookie_nonvacuous :
     OOk; OTokens (Some 9%nat) (Some 10%nat) (Some 11%nat) [PS "openid"; PS "email"; PS "offline_access"];
     OOk; OTokens (Some 12%nat) (Some 13%nat) (Some 14%nat) [PS "openid"; PS "email"; PS "offline_access"] ].
 Proof. vm_compute. split; reflexivity. Qed.
+
+(* non-vacuity, implicit / hybrid: client_1 asks for openid+address+email+custom with response type `code id_token token`
+   (the response carries code 0, access token 1, ID Token 2, all with openid+email), then with `token` alone (access token
+   3); the front-channel access token is introspected, the hybrid code redeemed. *)
+Definition demo_front : list op :=
+  [ AuthorizeRT (PS "diana") c1 [PS "openid"; PS "address"; PS "email"; PS "custom"] true true true;
+    AuthorizeRT (PS "diana") c1 [PS "openid"; PS "profile"; PS "phone"] false true false;
+    Introspect c1 (TRef 1); Introspect c1 (TRef 3);
+    TokenParse c1 (TRef 0) (Some cb); Process 0 None ].
+Example C05_front_channel_nonvacuous :
+  snd (run (mk_cfg true false) init demo_front) =
+  [ OAuthzRT (Some 0%nat) (Some 1%nat) (Some 2%nat) [PS "openid"; PS "email"];
+    OAuthzRT None (Some 3%nat) None [PS "openid"; PS "profile"];
+    OActive [PS "openid"; PS "email"] c1 Access; OActive [PS "openid"; PS "profile"] c1 Access;
+    OOk; OTokens (Some 4%nat) None (Some 5%nat) [PS "openid"; PS "email"] ].
+Proof. vm_compute. reflexivity. Qed.
 
 (* Tie to the source: Gen/Src_scopes.v is the CURRENT idpyoidc.server.scopes.Scopes.get_allowed_scopes / filter_scopes,
    translated by harness/py2v.py on every run.  inject_scopes pa cdb is a Scopes instance whose own allowed_scopes are
